@@ -264,6 +264,30 @@ func scenario(seed int64, sn int) (int, int) {
 	} else {
 		close(longDone)
 	}
+	if prof.pairs == 0 && vh.Thorough() && sn%3 == 0 {
+		// a transaction that outlives the checker's MaxAge: the tick aborts it, its writes
+		// must never become visible and Complete must report failure
+		db19.MaxAge = 1
+		wg.Add(1)
+		go func() {
+			defer wg.Done()
+			r := rand.New(rand.NewSource(seed + 777))
+			c := beginTran(r, true)
+			if c == nil {
+				return
+			}
+			c.op()
+			c.output(prof.tables[0])
+			time.Sleep(2300 * time.Millisecond)
+			if !c.dead {
+				c.op()
+			}
+			c.finish()
+			ntran.Add(1)
+		}()
+	} else {
+		db19.MaxAge = 20
+	}
 	for c := 0; c < prof.clients && prof.pairs == 0; c++ {
 		wg.Add(1)
 		go func(c int) {
